@@ -2,7 +2,9 @@ package main
 
 import (
 	"fmt"
+	"github.com/semihalev/twig"
 	"sort"
+	"strconv"
 	"strings"
 )
 
@@ -19,6 +21,7 @@ func init() { runners["C10"] = runC10 }
 // engine != oracle is a failing input of the property ("oracle"); engine != spec a difference from the proved
 // specification ("disagreement", a violation with a failing input because props/C10.json names a reference_spec).
 func runC10(cases string, res *Result) {
+	c10IncludedChains(res)
 	// findings are collected and reported smallest template set first, so that the failing input shown is a small one
 	type sized struct {
 		f    Finding
@@ -113,4 +116,69 @@ func runC10(cases string, res *Result) {
 			}
 		}
 	})
+}
+
+// c10IncludedChains: a template reached through an include has an extends chain of its own; its blocks are resolved
+// along that chain, not along the chain of the template that includes it, also when both chains define blocks of
+// the same names. The expectation is the included template rendered on its own, put where the include stands.
+func c10IncludedChains(res *Result) {
+	tpls := map[string]string{
+		"base":      "<{% block title %}B{% endblock %}|{% block body %}b{% endblock %}|{% block foot %}f{% endblock %}>",
+		"card_base": "[{% block title %}CB{% endblock %}:{% block body %}cb{% endblock %}:{% block extra %}x{% endblock %}]",
+		"card":      "{% extends 'card_base' %}{% block title %}Hello{% endblock %}",
+		"card_par":  "{% extends 'card_base' %}{% block title %}H({{ parent() }}){% endblock %}{% block body %}{% endblock %}",
+		"card_mid":  "{% extends 'card' %}{% block body %}mid({{ parent() }}){% endblock %}",
+		"card_none": "{% extends 'card_base' %}",
+		"plain":     "(plain {% block title %}PT{% endblock %})",
+	}
+	pages := []struct{ name, src string }{
+		{"in-block", "{% extends 'base' %}{% block title %}Page{% endblock %}{% block body %}{% include '$' %}{% endblock %}"},
+		{"in-block-with-parent", "{% extends 'base' %}{% block title %}Page{% endblock %}{% block body %}{{ parent() }}{% include '$' %}{{ parent() }}{% endblock %}"},
+		{"in-loop", "{% extends 'base' %}{% block title %}Page{% endblock %}{% block body %}{% for i in [1, 2] %}{% include '$' %}{% endfor %}{% endblock %}"},
+		{"empty-override-around", "{% extends 'base' %}{% block title %}{% endblock %}{% block body %}{% include '$' %}{% endblock %}{% block foot %}F2{% endblock %}"},
+		{"no-chain-around", "{% block title %}Own{% endblock %}/{% include '$' %}/{% block body %}ob{% endblock %}"},
+		{"twice", "{% extends 'base' %}{% block title %}Page{% endblock %}{% block body %}{% include '$' %}+{% include '$' %}{% endblock %}{% block foot %}{% include '$' %}{% endblock %}"},
+	}
+	for _, inc := range []string{"card", "card_par", "card_mid", "card_none", "plain"} {
+		for _, pg := range pages {
+			eng := twig.New()
+			for n, s := range tpls {
+				if err := eng.RegisterString(n, s); err != nil {
+					panic("c10 included chains: " + n + ": " + err.Error())
+				}
+			}
+			src := strings.ReplaceAll(pg.src, "$", inc)
+			c := Case{"stream": "c10-included-chains", "page": pg.name, "included": inc, "tpl": src}
+			res.Hist["stream:c10-included-chains"]++
+			res.Evaluations++
+			res.count("c10-included-chains/"+pg.name+"/"+inc, true)
+			alone, aerr := eng.Render(inc, map[string]interface{}{})
+			if aerr != nil {
+				continue
+			}
+			// the page with a marker where the include stands, on an engine of its own
+			ref := twig.New()
+			for n, s := range tpls {
+				ref.RegisterString(n, s)
+			}
+			ref.RegisterString("page", strings.ReplaceAll(pg.src, "{% include '$' %}", "@@INC@@"))
+			skeleton, serr := ref.Render("page", map[string]interface{}{})
+			if serr != nil {
+				continue
+			}
+			want := strings.ReplaceAll(skeleton, "@@INC@@", alone)
+			if err := eng.RegisterString("page", src); err != nil {
+				res.add(Finding{Kind: "oracle", Where: "c10-included-chains/parse", Case: c, Detail: err.Error()})
+				continue
+			}
+			got, err := eng.Render("page", map[string]interface{}{})
+			if err != nil {
+				got = "error: " + err.Error()
+			}
+			if got != want {
+				res.add(Finding{Kind: "oracle", Where: "c10-included-chains/" + pg.name, Case: c, Expected: want, Observed: got,
+					Detail: "the included template's blocks are not resolved along its own extends chain (included alone it renders " + strconv.Quote(alone) + ")"})
+			}
+		}
+	}
 }
